@@ -353,6 +353,16 @@ def groupByParty (aff : Cand → Option Nat) (ind : Independents) (p : Dict Cand
 def voteTotals {δ κ : Type} [DecidableEq κ] (p : List (δ × Dict κ)) : Dict κ :=
   p.foldl (fun all dv => addDictToDict all dv.2) []
 
+/-- add one district's votes to a nested dict (`merged[d] = sum_dicts(merged.get(d, {}), dv)`) -/
+def addNested {δ κ : Type} [DecidableEq δ] [DecidableEq κ] :
+    List (δ × Dict κ) → δ → Dict κ → List (δ × Dict κ)
+  | [], d, dv => [(d, addDictToDict [] dv)]
+  | (d', dv') :: t, d, dv => if d' = d then (d', addDictToDict dv' dv) :: t else (d', dv') :: addNested t d dv
+
+/-- the merged normal form of a list of (district, votes): the nested dict `A + B` of the harness -/
+def mergeNested {δ κ : Type} [DecidableEq δ] [DecidableEq κ] (p : List (δ × Dict κ)) : List (δ × Dict κ) :=
+  p.foldl (fun acc dv => addNested acc dv.1 dv.2) []
+
 /-- `ConstituencyTotals.convert` (convert.py L753-763) -/
 def constituencyTotals {δ κ : Type} [DecidableEq δ] (p : List (δ × Dict κ)) : Dict δ :=
   dictOf (p.map (fun dv => (dv.1, sumValues dv.2)))
